@@ -203,9 +203,9 @@ def check_copy(ctx, R):
         got, has_ri, mcaps = run_copy_case(kind, data, caps, pos, r)
         impls.append((got, has_ri, mcaps))
         margs.append((data, pos, list(mcaps), has_ri, list(r) if r else [], len(mcaps) + len(data) // BUF + 4))
-    models = R.batch('copy', margs, chunk=8)
+    models = R.batch('copy', margs, chunk=8) if R is not None else [None] * len(margs)
     for (kind, data, caps, pos, r), (got, has_ri, mcaps), mv in zip(cases, impls, models):
-        m = R.unres(mv)
+        m = R.unres(mv) if mv is not None else None
         n = len(data)
         desc = dict(api='copy_bytes', source=kind, size=n, caps=caps, pos=pos, range=r)
         if r is None:
@@ -215,7 +215,7 @@ def check_copy(ctx, R):
         else:
             want = data[r[0]:r[1]] if r[1] > r[0] else b''
         ctx.case(('copy', kind, n, tuple(caps), pos, r), bool(want), 'copy-' + kind + ('-range' if r else '-all'))
-        if got != m:
+        if m is not None and got != m:
             ctx.violation('copy_bytes/model-mismatch',
                           f'copy_bytes({kind} of {n} bytes, caps={caps}, pos={pos}, range={r}): implementation '
                           f'{got[0]}:{got[1] if got[0] == "err" else len(got[1])} model {m[0]}:'
@@ -264,8 +264,24 @@ def short(r):
     return list(r)
 
 
+def _dedupe(ctx, per_signature=2):
+    """report each signature at most twice so that one noisy class cannot hide the others"""
+    seen = {}
+    orig = ctx.violation
+    def violation(sig, what, replay):
+        seen[sig] = seen.get(sig, 0) + 1
+        if seen[sig] <= per_signature:
+            orig(sig, what, replay)
+    ctx.violation = violation
+
+
 def run(ctx, build):
-    R = ctx.runner('Copy')
+    _dedupe(ctx)
+    try:
+        R = ctx.runner('Copy')
+    except lib.BuildError:
+        R = None                # the proof build is broken as well; still hunt for a concrete input
+        ctx.stat('model-unavailable')
     check_copy(ctx, R)
     check_shell(ctx)
 
@@ -275,12 +291,13 @@ def check_shell(ctx):
     rng = ctx.rng
     w = S.Worker()
     found = {}
+    S.STATS.clear()
     try:
         seqs = []
         sizes = S.SIZES if ctx.thorough else [0, 1, 65535, 65536, 65537, 131073]
         for size in sizes:
             seqs.append(('roundtrip', S.roundtrip_sequence(rng, size)))
-        nseq = 1500 if ctx.thorough else (250 if ctx.widen else 120)
+        nseq = 3000 if ctx.thorough else (700 if ctx.widen else 400)
         for _ in range(nseq):
             seqs.append(('random', S.gen_sequence(rng, rng.randrange(6, 20))))
         for kind, seq in seqs:
@@ -302,6 +319,8 @@ def check_shell(ctx):
                               dict(api='sh', sequence=small.to_json(), transcript=log))
     finally:
         w.close()
+    for k, v in S.STATS.items():
+        ctx.stat(k, v)
     ctx.sample(dict(api='sh', sequence=['put host/src.bin (65537 bytes)', 'mkdir -p img:1/d1/sub', 'cp host/src.bin img:1/d1/sub/in.bin',
                                         'cp -r img:1/d1 img:2/copy', 'mv img:2/copy/sub/in.bin img:2/moved.bin',
                                         'cp img:2/moved.bin host/back.bin', 'cat ... -o host/twice.bin', 'rm -r img:1/d1']))
